@@ -822,20 +822,7 @@ func (e *sbEngine) submit(a sbAction) {
 	e.logf("submit req=%d model=%d variant=%d keep=%d", r.id, m, a.Variant%sbNumVariants, a.Keep%len(sbKeepReq))
 	// one client's call of GetRunner and what it sees at once. C02 (b): the caller is told "busy" only when the queue really
 	// is full (slack: requests submitted at the same instant that may or may not have been queued before this one)
-	fire := func(r *sbReq, ctx context.Context, slack int) {
-		un := unanswered
-		if slack > 0 {
-			// this call runs on its own goroutine, possibly after later submissions: count again, now
-			e.mu.Lock()
-			un = 0
-			for _, o := range e.reqs {
-				if o != r && o.replies == 0 {
-					un++
-				}
-			}
-			e.mu.Unlock()
-			slack = 0
-		}
+	fire := func(r *sbReq, ctx context.Context, twin bool) {
 		okCh, errCh := e.sched.GetRunner(ctx, mdl, opts, sbKeepReq[a.Keep%len(sbKeepReq)])
 		e.mu.Lock()
 		r.submitted = true
@@ -848,8 +835,10 @@ func (e *sbEngine) submit(a sbAction) {
 			e.logf("error req=%d err=%v (immediate)", r.id, err)
 			if errors.Is(err, ErrMaxQueue) {
 				e.flag("max_queue")
-				if un+slack < e.c.MaxQueue {
-					e.violate("C02", "request %d was refused with 'server busy' although only %d requests are unanswered (queue limit %d)", r.id, un+slack, e.c.MaxQueue)
+				// a twin call runs on its own goroutine, at a moment the harness does not control: how many requests were
+				// unanswered when it reached the queue is not known, so "busy" is not judged for it
+				if !twin && unanswered < e.c.MaxQueue {
+					e.violate("C02", "request %d was refused with 'server busy' although only %d requests are unanswered (queue limit %d)", r.id, unanswered, e.c.MaxQueue)
 				}
 			}
 			e.mu.Unlock()
@@ -866,15 +855,15 @@ func (e *sbEngine) submit(a sbAction) {
 		e.logf("submit req=%d model=%d variant=%d keep=%d (twin of req=%d)", r2.id, m, a.Variant%sbNumVariants, a.Keep%len(sbKeepReq), r.id)
 		e.flag("twin_submit")
 		e.mu.Unlock()
-		go fire(r2, ctx2, 1)
-		go fire(r, ctx, 1)
+		go fire(r2, ctx2, true)
+		go fire(r, ctx, true)
 		if !a.Burst {
 			e.settle()
 		}
 		return
 	}
 	e.mu.Unlock()
-	fire(r, ctx, 0)
+	fire(r, ctx, false)
 
 	if a.Burst || (reuse == nil && !needRoom) {
 		if !a.Burst {
